@@ -617,7 +617,29 @@ FMTFAIL = {
     "tree/nwk.zip": ("core.tree.write", "out.nwk.zip", lambda p: _tree().write(str(p))),
     "trees/bad-member": ("phylo.tree_collection.write", "out.trees", lambda p: _bad_tree_collection().write(str(p))),
     "trees/bad-member.gz": ("phylo.tree_collection.write", "out.trees.gz", lambda p: _bad_tree_collection().write(str(p))),
+    # the temporary file cannot even be opened, for a reason that is not an OSError (bad mode / unknown or misplaced encoding)
+    "raw/mode=wtb": ("util.io.atomic_write", "out.txt", lambda p: _aw_use(p, mode="wtb")),
+    "raw/mode=rw": ("util.io.atomic_write", "out.txt", lambda p: _aw_use(p, mode="rw")),
+    "raw/encoding=utf-88": ("util.io.atomic_write", "out.txt", lambda p: _aw_use(p, encoding="utf-88")),
+    "raw.gz/encoding=utf-88": ("util.io.atomic_write", "out.txt.gz", lambda p: _aw_use(p, encoding="utf-88")),
+    "raw.gz/binary-with-encoding": ("util.io.atomic_write", "out.txt.gz", lambda p: _aw_use(p, mode="wb", encoding="utf-8")),
+    "raw.bz2/binary-with-encoding": ("util.io.atomic_write", "out.txt.bz2", lambda p: _aw_use(p, mode="wb", encoding="utf-8")),
+    "raw/no-context/mode=wtb": ("util.io.atomic_write", "out.txt", lambda p: _aw_use(p, ctx=False, mode="wtb")),
+    "raw/no-context/encoding=utf-88": ("util.io.atomic_write", "out.txt", lambda p: _aw_use(p, ctx=False, encoding="utf-88")),
+    "table/mode=wtb": ("util.table.write", "out.tsv", lambda p: _table().write(str(p), mode="wtb")),
+    "table.gz/mode=wtb": ("util.table.write", "out.tsv.gz", lambda p: _table().write(str(p), mode="wtb")),
 }
+
+
+def _aw_use(p, ctx=True, **kw):
+    from cogent3.util.io import atomic_write
+    if ctx:
+        with atomic_write(p, **kw) as f:
+            f.write(AW_TEXT)
+    else:
+        aw = atomic_write(p, **kw)
+        aw.write(AW_TEXT)
+        aw.close()
 
 
 def gen_fmtfail(tier, seed):
@@ -967,7 +989,9 @@ BOUNDED = {
                       "format.alignment.save_to_filename", "util.table.Table.write", "util.dict_array.DictArray.write",
                       "core.tree.TreeNode.write", "phylo.tree_collection.ScoredTreeCollection.write"],
         "bound": f"{len(FMTFAIL)} calls whose formatting fails natively (unknown format / suffix, bad keyword, bedgraph "
-                 "on unsuitable data, raising writer function, bad collection member, zip target without writelines) x "
+                 "on unsuitable data, raising writer function, bad collection member, zip target without writelines) or whose "
+                 "temporary file cannot be opened for a reason other than an OSError (invalid mode, unknown encoding, encoding "
+                 "with a binary mode; context manager and write()/close() protocol) x "
                  "destination {absent, pre-existing} x {plain, .gz, .zip} where the writer accepts it",
         "rule": "a case = (call, initial destination); skipped when the call does not raise (the statement only speaks "
                 "about failing formatting); non-trivial when it raises",
